@@ -628,4 +628,293 @@ theorem path_roundtrip_of_canon {A : Type} (env : PathEnv A) (p : Path A) (hc : 
     simp only [he, hparse, hnhop, hmeta]
     simp
 
+/-! ## values returned by `try_from_rpc` are canonical -/
+
+theorem tryU_ok' (x bits : Nat) (e : RErr) (y : Nat) (h : tryU x bits e = .ok y) : y = x ∧ x < 2 ^ bits := by
+  unfold tryU at h
+  split at h
+  · simp only [Except.ok.injEq] at h; exact ⟨h.symm, by assumption⟩
+  · cases h
+
+/-- wire-range duration with normalised nanoseconds -/
+def DurOk (d : Int × Int) : Prop :=
+  i64Min ≤ d.1 ∧ d.1 ≤ i64Max ∧ -((NANOS_PER_SECOND : Nat) : Int) < d.2 ∧ d.2 < ((NANOS_PER_SECOND : Nat) : Int)
+
+theorem durToStd_range (d : Int × Int) (hd : DurOk d) :
+    durToStd d = none ∨ ∃ s ns : Nat, durToStd d = some (s, ns) ∧ (s : Int) ≤ i64Max ∧ ns < NANOS_PER_SECOND := by
+  obtain ⟨h1, h2, h3, h4⟩ := hd
+  obtain ⟨s, n⟩ := d
+  simp only at h1 h2 h3 h4
+  unfold durToStd normalizeDur
+  have c1 : ¬ (n ≤ -((NANOS_PER_SECOND : Nat) : Int) ∨ n ≥ ((NANOS_PER_SECOND : Nat) : Int)) := by omega
+  simp only [c1, if_false]
+  have hmax : i64Max = 9223372036854775807 := by decide
+  have hmin : i64Min = -9223372036854775808 := by decide
+  have hnps : ((NANOS_PER_SECOND : Nat) : Int) = 1000000000 := by decide
+  have hnpsn : NANOS_PER_SECOND = 1000000000 := by decide
+  simp only [hmax, hmin, hnps] at h1 h2 h3 h4 ⊢
+  by_cases a : s < 0 ∧ n > 0
+  · simp only [a, and_self, if_true]
+    have h5 : s + 1 ≤ 9223372036854775807 := by omega
+    simp only [h5, if_true]
+    left
+    have h6 : ¬ (s + 1 ≥ 0 ∧ n - 1000000000 ≥ 0) := by omega
+    rw [if_neg h6]
+  · simp only [a, if_false]
+    by_cases b : s > 0 ∧ n < 0
+    · simp only [b, and_self, if_true]
+      have h5 : (-9223372036854775808 : Int) ≤ s - 1 := by omega
+      simp only [h5, if_true]
+      right
+      have hc : s - 1 ≥ 0 ∧ n + 1000000000 ≥ 0 := by omega
+      refine ⟨(s - 1).toNat, (n + 1000000000).toNat, by rw [if_pos hc], ?_, ?_⟩
+      · omega
+      · rw [hnpsn]; omega
+    · simp only [b, if_false]
+      by_cases c : s ≥ 0 ∧ n ≥ 0
+      · right
+        refine ⟨s.toNat, n.toNat, by rw [if_pos c], ?_, ?_⟩
+        · omega
+        · rw [hnpsn]; omega
+      · left; rw [if_neg c]
+
+theorem lat_written_back (s ns : Nat) (hs : (s : Int) ≤ i64Max) (hns : ns < NANOS_PER_SECOND) :
+    durToStd (latToRpc (some (s, ns))) = some (s, ns) := by
+  have h32 : (ns : Int) ≤ i32Max := by
+    have : ((NANOS_PER_SECOND : Nat) : Int) ≤ i32Max := by decide
+    have : (ns : Int) < ((NANOS_PER_SECOND : Nat) : Int) := by exact_mod_cast hns
+    omega
+  simp only [latToRpc, hs, h32, if_true]
+  have hn : (ns : Int) < ((NANOS_PER_SECOND : Nat) : Int) := by exact_mod_cast hns
+  unfold durToStd normalizeDur
+  have c1 : ¬ ((ns : Int) ≤ -((NANOS_PER_SECOND : Nat) : Int) ∨ (ns : Int) ≥ ((NANOS_PER_SECOND : Nat) : Int)) := by omega
+  simp only [c1, if_false]
+  have c2 : ¬ ((s : Int) < 0 ∧ (ns : Int) > 0) := by omega
+  have c3 : ¬ ((s : Int) > 0 ∧ (ns : Int) < 0) := by omega
+  simp only [c2, c3, if_false]
+  have c4 : (s : Int) ≥ 0 ∧ (ns : Int) ≥ 0 := by omega
+  simp [c4]
+
+theorem dur_idem (d : Int × Int) (hd : DurOk d) : durToStd (latToRpc (durToStd d)) = durToStd d := by
+  rcases durToStd_range d hd with h | ⟨s, ns, h, h1, h2⟩
+  · rw [h]; decide
+  · rw [h]; exact lat_written_back s ns h1 h2
+
+theorem geo_idem (g : RGeo) : geoFromRpc (geoToRpc (geoFromRpc g)) = geoFromRpc g := by
+  unfold geoFromRpc
+  split
+  · decide
+  · rename_i h
+    simp only [geoToRpc]
+    cases he : g.address.isEmpty
+    · have hne : g.address ≠ [] := by intro h'; rw [h'] at he; simp at he
+      simp [he]
+    · have : g.address = [] := by cases hg : g.address <;> simp_all
+      simp only [he, Bool.and_true] at h
+      simp [h]
+
+
+/-- side conditions on an RPC path under which the value `try_from_rpc` returns is canonical -/
+structure RpcSane (r : RPath) : Prop where
+  exp : ∀ e, r.expiration = some e → 0 ≤ e.1 ∧ e.1 ≤ i64Max
+  link : ∀ x ∈ r.linkType, linkFromI32 (linkToI32 (linkFromI32 x)) = linkFromI32 x
+  lat : ∀ d ∈ r.latency, DurOk d
+
+theorem metaFromRpc_canon (r : RPath) (m : PathMeta) (h : metaFromRpc r = .ok m) (hs : RpcSane r) :
+    ∃ ifm, MetaCanon m ifm := by
+  unfold metaFromRpc at h
+  split at h
+  · cases h
+  · rename_i hn
+    split at h
+    · cases h
+    · rename_i ifs hifs
+      split at h
+      · cases h
+      · rename_i hn2
+        split at h
+        · cases h
+        · rename_i e he
+          split at h
+          · cases h
+          · rename_i mtu hmtu
+            simp only [Except.ok.injEq] at h
+            subst h
+            have hlen : ifs.length = r.interfaces.length := mapE_length _ _ _ hifs
+            obtain ⟨rfl, hmtu'⟩ := tryU_ok' _ _ _ _ hmtu
+            obtain ⟨ifm, hifm⟩ : ∃ l, l = ifs.mapIdx fun i iface => metaAt r r.interfaces.length i iface := ⟨_, rfl⟩
+            refine ⟨ifm, ?_⟩
+            have hl : ifm.length = r.interfaces.length := by rw [hifm, List.length_mapIdx, hlen]
+            have hel : ∀ i (hi : i < ifm.length) (hi' : i < ifs.length),
+                ifm[i] = metaAt r r.interfaces.length i ifs[i] := by
+              intro i hi hi'; subst hifm; rw [List.getElem_mapIdx]
+            have hlt' : ∀ i, i < ifm.length → i < ifs.length := by intro i hi; omega
+            rw [← hifm]
+            constructor
+            · rfl
+            · omega
+            · omega
+            · obtain ⟨e0, e1⟩ := hs.exp e he
+              simp only
+              have hlt : e.1 < ((2 ^ PATH_EXPIRATION_BITS : Nat) : Int) := by
+                have : i64Max < ((2 ^ PATH_EXPIRATION_BITS : Nat) : Int) := by decide
+                omega
+              rw [Int.emod_eq_of_lt e0 hlt, Int.toNat_of_nonneg e0]
+              exact e1
+            · exact hmtu'
+            · simp only
+              split
+              · rename_i hnl; exact Or.inr ⟨_, rfl, by rw [hl]; exact hnl⟩
+              · exact Or.inl rfl
+            · intro i hi
+              have hi' : i < ifs.length := hlt' i hi
+              rw [hel i hi hi']
+              constructor
+              · -- id
+                obtain ⟨a, _, ha⟩ := mapE_ok_forall _ _ _ hifs ifs[i] (List.getElem_mem hi')
+                unfold ifaceFromRpc at ha
+                split at ha
+                · cases ha
+                · rename_i id hid
+                  simp only [Except.ok.injEq] at ha
+                  obtain ⟨rfl, hlt⟩ := tryU_ok' _ _ _ _ hid
+                  rw [← ha]; exact hlt
+              · -- geo
+                simp only [metaAt]
+                split
+                · cases hg : r.geo[i]? with
+                  | none => decide
+                  | some g => simp only [Option.bind_some]; exact geo_idem g
+                · decide
+              · -- latency
+                simp only [metaAt]
+                split
+                · split
+                  · rename_i hll
+                    cases hd : r.latency[i]? with
+                    | none => decide
+                    | some d =>
+                      simp only [Option.bind_some]
+                      exact dur_idem d (hs.lat d (List.mem_of_getElem? hd))
+                  · decide
+                · split
+                  · rename_i hge hll
+                    have : r.latency[i]? = none := by
+                      apply List.getElem?_eq_none; omega
+                    rw [this]; rfl
+                  · rfl
+              · -- bandwidth
+                simp only [metaAt]
+                split
+                · split
+                  · cases hb : r.bandwidth[i]? with
+                    | none => decide
+                    | some b =>
+                      simp only [Option.bind_some]
+                      by_cases hb0 : b > 0 <;> simp [hb0]
+                  · decide
+                · split
+                  · rename_i hge hll
+                    have : r.bandwidth[i]? = none := by
+                      apply List.getElem?_eq_none; omega
+                    rw [this]; rfl
+                  · rfl
+            · -- even indices
+              unfold EvenCanon
+              by_cases hlt : r.linkType.length = r.interfaces.length / 2
+              · left
+                intro k hk
+                rw [hel (2 * k) hk (hlt' _ hk)]
+                have hk2 : k < r.linkType.length := by omega
+                refine ⟨linkFromI32 r.linkType[k], ?_, hs.link _ (List.getElem_mem hk2)⟩
+                simp only [metaAt]
+                have : 2 * k % 2 = 0 := by omega
+                have hd : 2 * k / 2 = k := by omega
+                simp [this, hlt, hd, List.getElem?_eq_getElem hk2]
+              · right
+                intro k hk
+                rw [hel (2 * k) hk (hlt' _ hk)]
+                simp only [metaAt]
+                have : 2 * k % 2 = 0 := by omega
+                simp [this, hlt]
+            · -- odd indices
+              unfold OddCanon
+              constructor
+              · intro k hk hlast
+                rw [hel (2 * k + 1) hk (hlt' _ hk)]
+                simp only [metaAt]
+                have : ¬ (2 * k + 1) % 2 = 0 := by omega
+                simp only [this, if_false]
+                split
+                · rename_i hll
+                  have : r.internalHops[(2 * k + 1) / 2]? = none := by
+                    apply List.getElem?_eq_none; omega
+                  rw [this]; rfl
+                · rfl
+              · by_cases hll : r.internalHops.length = r.interfaces.length / 2 - 1
+                · left
+                  intro k hk hnl
+                  rw [hel (2 * k + 1) hk (hlt' _ hk)]
+                  have hk2 : k < r.internalHops.length := by omega
+                  refine ⟨r.internalHops[k], ?_⟩
+                  simp only [metaAt]
+                  have : ¬ (2 * k + 1) % 2 = 0 := by omega
+                  have hd : (2 * k + 1) / 2 = k := by omega
+                  simp [hll, hd, List.getElem?_eq_getElem hk2]
+                · right
+                  intro k hk
+                  rw [hel (2 * k + 1) hk (hlt' _ hk)]
+                  simp only [metaAt]
+                  simp [hll]
+
+
+theorem path_from_rpc_canon {A : Type} (env : PathEnv A) (r : RPath) (src dst : Nat) (p : Path A)
+    (h : pathFromRpc env r src dst = .ok p) (hs : RpcSane r)
+    (haddr : ∀ s a, env.parseAddr s = some a → env.parseAddr (env.showAddr a) = some a) :
+    PathCanon env p ∧ p.src = src ∧ p.dst = dst := by
+  unfold pathFromRpc at h
+  split at h
+  · split at h
+    · cases h
+    · rename_i hw
+      split at h
+      · rename_i hsd
+        subst hsd
+        have hnw : isWildcard src = false := by
+          cases hh : isWildcard src
+          · rfl
+          · simp [hh] at hw
+        simp only [localPath, hnw] at h
+        simp only [Bool.false_eq_true, if_false, Except.ok.injEq] at h
+        subst h
+        exact ⟨PathCanon.loc src hnw, rfl, rfl⟩
+      · cases h
+  · rename_i hne
+    split at h
+    · cases h
+    · cases h
+    · rename_i hparse
+      split at h
+      · cases h
+      · rename_i nh hnh
+        split at h
+        · cases h
+        · rename_i m hm
+          simp only [Except.ok.injEq] at h
+          subst h
+          obtain ⟨ifm, hc⟩ := metaFromRpc_canon r m hm hs
+          refine ⟨PathCanon.standard src dst r.raw m ifm nh ?_ hparse ?_ hc, rfl, rfl⟩
+          · intro he; rw [he] at hne; simp at hne
+          · intro a ha
+            subst ha
+            unfold nextHopFromRpc at hnh
+            split at hnh
+            · cases hnh
+            · split at hnh
+              · cases hnh
+              · rename_i a' hp
+                simp only [Except.ok.injEq, Option.some.injEq] at hnh
+                subst hnh
+                exact haddr _ a' hp
+
 end ScionVerif.Rpc
